@@ -2,6 +2,7 @@
 import z3
 
 from .common import *
+from pyvc.engine import _Raise, _PathEnd
 
 ENTRY = TRec("Entry", obj=ANY)
 OPT_ENTRY = TOpt(ENTRY)
@@ -181,4 +182,45 @@ class LRUCacheStore_sync_paths(_LRUStoreBase):
         ] + self.inv_after(ctx)
 
 
-SPECS = [LRUCache_get, LRUCache_put, LRUCacheStore_has_blob, LRUCacheStore_fetch_blob, LRUCacheStore_store_blob, LRUCacheStore_sync_paths]
+def _faulty(model, what):
+    """the wrapped store's operation may fail (I/O fault: disk full, network) and then leaves the store as it was"""
+
+    def m(eng, args, kwargs, node):
+        if eng.choose(z3.Bool(sv.fresh_name("inner_%s_fails" % what))):
+            eng.event("inner_fault", what=what)
+            raise _Raise(ExcVal("Exception*"))
+        return model.fn(eng, args, kwargs, node) if hasattr(model, "fn") else model(eng, args, kwargs, node)
+
+    return Model(m, "Store.%s (may fail)" % what)
+
+
+class _Faulty:
+    """the same operation over a wrapped store whose writes may fail: whatever happens, the cache stays coherent with the
+    store (an object is cached only if the store holds it), so the wrapper never claims a blob the store lacks"""
+
+    may_raise = True
+    variant = "wrapped store may fail"
+
+    def __init__(self):
+        super().__init__()
+        from .common import _st_store_blob, _st_sync_paths
+
+        cls = dict(self.classes["Store"])
+        cls["store_blob"] = _faulty(_st_store_blob, "store_blob")
+        cls["sync_paths"] = _faulty(_st_sync_paths, "sync_paths")
+        self.classes["Store"] = cls
+
+    def signals(self, ctx):
+        faults = [e for e in ctx.events if e.kind == "inner_fault"]
+        return [("only_the_inner_fault_propagates", len(faults) == 1)] + self.inv_after(ctx) + self.store_unchanged(ctx)
+
+
+class LRUCacheStore_store_blob_faulty(_Faulty, LRUCacheStore_store_blob):
+    pass
+
+
+class LRUCacheStore_sync_paths_faulty(_Faulty, LRUCacheStore_sync_paths):
+    pass
+
+
+SPECS = [LRUCacheStore_store_blob_faulty, LRUCacheStore_sync_paths_faulty, LRUCache_get, LRUCache_put, LRUCacheStore_has_blob, LRUCacheStore_fetch_blob, LRUCacheStore_store_blob, LRUCacheStore_sync_paths]
